@@ -102,6 +102,22 @@ func c06WriteCorpus(r *core.Run, dir string) (map[string]string, error) {
 		files[fmt.Sprintf("hub/hub%d/b.go", h)] = f1
 		classes[fmt.Sprintf("%s/hub/hub%d", c06Mod, h)] = "hub"
 	}
+	// forward references: one declaration mentions many names declared later in the file (and in
+	// a later file), so the order in which its dependencies are emitted is exercised
+	for f := 0; f < 6; f++ {
+		var a, b strings.Builder
+		name := fmt.Sprintf("fwd%d", f)
+		fmt.Fprintf(&a, "package %s\n\nfunc Top(x uint64) uint64 {\n\ts := &S1{a: x}\n\tt := T2{b: K2}\n\treturn h1(x) + h2(x) + h3(x) + h4(x) + K1 + K2 + K3 + s.a + t.b + uint64(len(mk(x))) + g1(x)\n}\n\n", name)
+		fmt.Fprintf(&a, "func Second(x uint64) uint64 {\n\treturn g2(x) + g1(x) + h4(x) + K3 + Top(x)\n}\n\n")
+		for _, h := range []string{"h3", "h1", "h4", "h2"} {
+			fmt.Fprintf(&a, "func %s(x uint64) uint64 {\n\treturn x + %d\n}\n\n", h, f)
+		}
+		a.WriteString("const K2 uint64 = 2\n\nconst K1 uint64 = 1\n\ntype T2 struct {\n\tb uint64\n}\n\ntype S1 struct {\n\ta uint64\n}\n\nconst K3 uint64 = 3\n\nfunc mk(x uint64) []uint64 {\n\treturn make([]uint64, x%4)\n}\n")
+		fmt.Fprintf(&b, "package %s\n\nfunc g2(x uint64) uint64 {\n\treturn x * 2\n}\n\nfunc g1(x uint64) uint64 {\n\treturn x * 3\n}\n", name)
+		files["fwd/"+name+"/a_top.go"] = a.String()
+		files["fwd/"+name+"/z_later.go"] = b.String()
+		classes[c06Mod+"/fwd/"+name] = "generated-good"
+	}
 	return classes, writeModule(dir, c06Mod, nil, files)
 }
 
